@@ -3,6 +3,7 @@ package zsim
 import (
 	"bytes"
 	"fmt"
+	"math/rand/v2"
 	"os"
 
 	"github.com/dgraph-io/ristretto/v2/z"
@@ -24,9 +25,11 @@ const (
 	BSortBetween // SortSliceBetween over slices [A, B)
 	BWriteMany   // N slices with lengths from a small range
 	NumBOps
+	// BHuge (only in Huge plans): Allocate (A=0) or AllocateOffset (A=1) of N > 1 GB bytes
+	BHuge = NumBOps
 )
 
-var BOpNames = []string{"Write", "Allocate", "AllocateOffset", "Grow", "Reset", "WriteSlice", "SliceAllocate", "CheckSlices", "SortSlice", "SortSliceBetween", "WriteSlices(many)"}
+var BOpNames = []string{"Write", "Allocate", "AllocateOffset", "Grow", "Reset", "WriteSlice", "SliceAllocate", "CheckSlices", "SortSlice", "SortSliceBetween", "WriteSlices(many)", "Allocate(>1GB)"}
 
 // Less kinds.
 const (
@@ -66,6 +69,10 @@ type BufPlan struct {
 	PreSize   int   `json:"pre_size,omitempty"` // ModePersistent: size of the file found at the path (0: none)
 	MaxSize   int   `json:"max_size,omitempty"`
 	Slices    bool  `json:"slices"` // slice regime (WriteSlice...) or raw regime
+	// Huge: raw regime on a file-backed buffer with ONE allocation above the
+	// 1 GB growth step (BHuge); the file is sparse and only the first and last
+	// bytes of that allocation are touched, so the run costs a few pages
+	Huge bool `json:"huge,omitempty"`
 	Ops       []BOp `json:"ops"`
 }
 
@@ -73,6 +80,9 @@ func genBuffer(seed uint64, deep bool) *BufPlan {
 	r := core.NewRand(seed, 1)
 	p := &BufPlan{}
 	p.Mode = r.IntN(3)
+	if r.IntN(25) == 0 {
+		return genBufferHuge(r, p)
+	}
 	if r.IntN(6) == 0 {
 		p.Mode = ModePersistent
 		p.PreSize = []int{0, 0, 64, 72, 128, 1000, 4096, 4104, 70000}[r.IntN(9)]
@@ -204,6 +214,37 @@ func genBuffer(seed uint64, deep bool) *BufPlan {
 	return p
 }
 
+// genBufferHuge: a few small raw operations around one allocation larger than
+// the 1 GB growth step ("larger-than-capacity" at the size where Grow's step
+// limit and its "at least n" floor meet).
+func genBufferHuge(r *rand.Rand, p *BufPlan) *BufPlan {
+	p.Huge = true
+	p.Mode = ModeTmpMmap
+	if r.IntN(2) == 0 {
+		// the huge growth is (or follows) the switch to a file
+		p.Mode = ModeAutoMmap
+		p.Threshold = []int{1, 64, 4096, 100000, 1 << 30}[r.IntN(5)]
+	}
+	p.InitCap = []int{0, 64, 100, 4096, 1 << 20}[r.IntN(5)]
+	small := func() BOp {
+		k := []int{BWrite, BAllocate, BAllocateOffset, BGrow}[r.IntN(4)]
+		return BOp{K: k, N: []int{0, 1, 8, 40, 100, 5000}[r.IntN(6)], Seed: r.Uint64()}
+	}
+	for i, n := 0, r.IntN(4); i < n; i++ {
+		p.Ops = append(p.Ops, small())
+	}
+	huge := 1<<30 + []int{1, 2, 64, 4096, 4097, 1 << 20, 1<<29 + 3}[r.IntN(7)]
+	p.Ops = append(p.Ops, BOp{K: BHuge, N: huge, A: r.IntN(2), Seed: r.Uint64()})
+	for i, n := 0, r.IntN(5); i < n; i++ {
+		if r.IntN(8) == 0 {
+			p.Ops = append(p.Ops, BOp{K: BReset})
+			continue
+		}
+		p.Ops = append(p.Ops, small())
+	}
+	return p
+}
+
 func pattern(seed uint64, n int) []byte {
 	b := make([]byte, n)
 	x := seed | 1
@@ -255,10 +296,16 @@ type bufRun struct {
 	plan                                         *BufPlan
 	buf                                          *z.Buffer
 	raw                                          []byte   // model: raw regime
+	// Huge plans: the model of the one huge allocation is sparse: it sits at
+	// raw[hugeAt] (not stored in raw), is hugeLen long, and only its first and
+	// last len(hugeHead)/len(hugeTail) bytes were written
+	hugeAt, hugeLen    int
+	hugeHead, hugeTail []byte
 	slices                                       [][]byte // model: slice regime (including empty slices)
 	viol                                         []Violation
 	opIdx                                        int
 	grows, sorts, migrations, refused, maxSlices int
+	huge                                         int
 }
 
 func (t *bufRun) violate(rule, msg string) {
@@ -270,7 +317,7 @@ func (t *bufRun) violate(rule, msg string) {
 // modelLen: used length including the 8 bytes of padding.
 func (t *bufRun) modelLen() int {
 	if !t.plan.Slices {
-		return 8 + len(t.raw)
+		return 8 + len(t.raw) + t.hugeLen
 	}
 	n := 8
 	for _, s := range t.slices {
@@ -292,6 +339,20 @@ func guarded(f func()) (panicked bool, msg string) {
 
 func (t *bufRun) checkRaw(when string) {
 	got := t.buf.Bytes()
+	if t.hugeLen > 0 {
+		// sparse comparison: everything but the untouched middle of the huge allocation
+		want := len(t.raw) + t.hugeLen
+		if len(got) != want || t.buf.LenNoPadding() != want {
+			t.violate("len", fmt.Sprintf("%s: Bytes() has %d bytes, LenNoPadding()=%d, model %d", when, len(got), t.buf.LenNoPadding(), want))
+			return
+		}
+		h := got[t.hugeAt : t.hugeAt+t.hugeLen]
+		if !bytes.Equal(got[:t.hugeAt], t.raw[:t.hugeAt]) || !bytes.Equal(got[t.hugeAt+t.hugeLen:], t.raw[t.hugeAt:]) ||
+			!bytes.Equal(h[:len(t.hugeHead)], t.hugeHead) || !bytes.Equal(h[len(h)-len(t.hugeTail):], t.hugeTail) {
+			t.violate("bytes-differ", fmt.Sprintf("%s: Bytes() differs from the bytes written around the %d-byte allocation at offset %d", when, t.hugeLen, t.hugeAt))
+		}
+		return
+	}
 	if !bytes.Equal(got, t.raw) {
 		i := 0
 		for i < len(got) && i < len(t.raw) && got[i] == t.raw[i] {
@@ -404,7 +465,7 @@ func runBuffer(plan *BufPlan, dir string) (res *RunResult) {
 		}
 		res.Violations = t.viol
 		res.Steps = t.opIdx
-		res.Extra = map[string]int{"grows": t.grows, "sorts": t.sorts, "calloc_to_mmap": t.migrations, "refused_by_max_size": t.refused, "max_slices": t.maxSlices}
+		res.Extra = map[string]int{"grows": t.grows, "sorts": t.sorts, "calloc_to_mmap": t.migrations, "refused_by_max_size": t.refused, "max_slices": t.maxSlices, "allocations_above_1GB": t.huge}
 	}()
 	switch plan.Mode {
 	case ModeCalloc:
@@ -494,8 +555,8 @@ func runBuffer(plan *BufPlan, dir string) (res *RunResult) {
 			data := pattern(op.Seed, op.N)
 			p, msg := guarded(func() {
 				off := t.buf.AllocateOffset(op.N)
-				if off != 8+len(t.raw) {
-					t.violate("allocate-offset", fmt.Sprintf("AllocateOffset(%d) returned offset %d, used length was %d", op.N, off, 8+len(t.raw)))
+				if off != t.modelLen() {
+					t.violate("allocate-offset", fmt.Sprintf("AllocateOffset(%d) returned offset %d, used length was %d", op.N, off, t.modelLen()))
 				}
 				b := t.buf.Bytes()
 				copy(b[off-8:], data)
@@ -513,9 +574,38 @@ func runBuffer(plan *BufPlan, dir string) (res *RunResult) {
 				break
 			}
 			t.checkRaw("after Grow")
+		case BHuge:
+			head, tail := pattern(op.Seed, 64), pattern(op.Seed+1, 64)
+			at := len(t.raw)
+			p, msg := guarded(func() {
+				var s []byte
+				if op.A == 0 {
+					s = t.buf.Allocate(op.N)
+				} else {
+					off := t.buf.AllocateOffset(op.N)
+					if off != 8+at {
+						t.violate("allocate-offset", fmt.Sprintf("AllocateOffset(%d) returned offset %d, used length was %d", op.N, off, 8+at))
+					}
+					s = t.buf.Bytes()[off-8:]
+				}
+				if len(s) != op.N {
+					t.violate("allocate-len", fmt.Sprintf("allocation of %d bytes gave %d bytes", op.N, len(s)))
+					return
+				}
+				copy(s, head)
+				copy(s[len(s)-64:], tail)
+			})
+			if refusal(p, msg, op.N) {
+				stop = true
+				break
+			}
+			t.hugeAt, t.hugeLen, t.hugeHead, t.hugeTail = at, op.N, head, tail
+			t.huge++
+			t.checkRaw("after the allocation above 1 GB")
 		case BReset:
 			t.buf.Reset()
 			t.raw, t.slices = nil, nil
+			t.hugeAt, t.hugeLen, t.hugeHead, t.hugeTail = 0, 0, nil, nil
 			if !t.buf.IsEmpty() {
 				t.violate("reset", "buffer not empty after Reset")
 			}
